@@ -356,7 +356,7 @@ def oracle(ctx, sc, ob):
     where = sc['where']
     popt = '-p' if sc['oport'] is not None else 'no-p'
     fam = {(): 0, (4,): AF4, (6,): AF6}.get(tuple(sc['flags']), 0)
-    replay = {'argv': sc['argv'], 'content': sc.get('content'), 'table': sc['table'], 'mode': sc['mode'], 'observed': {k: ob[k] for k in ('kind', 'gai', 'conn', 'msgs', 'labels', 'status')}}
+    replay = {'op': 'run', 'scenario': sc, 'observed': {k: ob[k] for k in ('kind', 'gai', 'conn', 'msgs', 'labels', 'status')}}
     bad_opt = sc['oport'] is not None and not 1 <= sc['oport'] <= 65535
     bad_targets = [e for e in exp if not e[3]]
     n = 0
@@ -508,6 +508,57 @@ def impl_resolve(table, host, port, pref):
         socket.getaddrinfo = real
 
 
+def eval_scenarios(ctx, scs, tmpdir, add):
+    """Runs the scenarios through the launcher; adds one correspondence term per run and evaluates the oracle."""
+    results = run_launcher(scs, tmpdir)
+    n_or = 0
+    for sc, r in zip(scs, results):
+        ob = observe(sc, r)
+        R = cresolver(sc['table'])
+        FL = clist(sc['flags'], cz)
+        OP = copt(sc['oport'], cz)
+        desc = {'op': 'run-%s-%s' % (sc['where'], sc['mode']), 'argv': sc['argv'], 'content': sc.get('content'), 'table': sc['table'],
+                'observed': {k: ob[k] for k in ('kind', 'gai', 'uconn', 'msgs', 'labels', 'status')}}
+        src = ('run_single %s %s' % (cstr(sc['arg']), OP)) if sc['where'] == 'cli' else ('run_file %s %s' % (cstr(sc['content']), OP))
+        nt = (sc['where'], sc['mode'], tuple(t['kind'] for t in sc['targets'])[:3], sc['oport'] is not None, tuple(sc['flags']), ob['kind'], sc.get('odd'), sc.get('out'))
+        if sc['mode'] == 'refuse':
+            add('chk_run (%s %s %s) %s %s %s %s' % (src, FL, R, cz(ob['kind']), clist(ob['gai'], cgai), clist(ob['conn'], cconn), clist(ob['msgs'], cstr)), desc, nt)
+        else:
+            lab = {'text': 'text_label', 'json': 'json_label', 'policy-text': 'text_label', 'policy-json': 'pj_label'}[sc['out']]
+            tsrc = ('targets_single %s %s' % (cstr(sc['arg']), OP)) if sc['where'] == 'cli' else ('targets_file %s %s' % (cstr(sc['content']), OP))
+            add('chk_peer %s (%s) (pref_of_flags %s) %s %s %s %s' % (lab, tsrc, FL, R, cbool(ob['kind'] == 2), clist(ob['labels'] + ob['msgs'], cstr), clist(ob['uconn'], cconn)), desc, nt)
+        n_or += oracle(ctx, sc, ob)
+    return n_or
+
+
+def replay_case(ctx, rp, add):
+    """Re-evaluates one recorded failing input (bin/check C18 --replay file)."""
+    op = rp.get('op')
+    if op == 'run':
+        tmpdir = tempfile.mkdtemp(prefix='c18_')
+        try:
+            return eval_scenarios(ctx, [rp['scenario']], tmpdir, add)
+        finally:
+            shutil.rmtree(tmpdir, ignore_errors=True)
+    if op == 'parse':
+        r = impl_parse(rp['s'], rp['default'])
+        add('res_eqb ep_eqb (parse_host_and_port %s %s) %s' % (cstr(rp['s']), cz(22 if rp['default'] is None else rp['default']), cparse(r)), dict(rp, impl=repr(r)))
+        if 'want' in rp and list(r) != list(rp['want']):
+            ctx.violation(rp['key'], 'parse_host_and_port(%r, %r) = %r, the spelling names %r' % (rp['s'], rp['default'], r, rp['want'][1:]), rp)
+        return 1
+    if op == 'flags':
+        r = impl_cli(rp['argv'])
+        if r[0] != 'ok' or r[3] != rp['want']:
+            ctx.violation(rp['key'], 'options %r give the family preference %r, the options name %r' % (rp['argv'][:-1], r[3] if r[0] == 'ok' else r, rp['want']), rp)
+        return 1
+    if op == 'rate_resolve':
+        a, b = impl_resolve(rp['table'], rp['host'], 22, rp['pref'])
+        if a and b and b != [0, ''] and a[0] != b:
+            ctx.violation(rp['key'], 'preference %r, resolver answers %r: the audit dials %r, the connection rate test dials %r' % (rp['pref'], rp['table'][rp['host']], a[0], b), rp)
+        return 1
+    raise common.CheckError('unknown replay op %r' % (op,))
+
+
 def mutate(rng, s, alphabet):
     if not s or rng.random() < 0.15:
         return ''.join(rng.choice(alphabet) for _ in range(rng.randrange(0, 10)))
@@ -541,6 +592,14 @@ def run(ctx):
             nontriv.add(nt)
 
     from ssh_audit.utils import Utils
+
+    if getattr(ctx, 'replay', None):
+        rp = json.load(open(ctx.replay))['replay']
+        n = replay_case(ctx, rp, add)
+        if terms:
+            ctx.correspond('target', IMPORTS, '', terms, lambda i: descs[i])
+        ctx.cover(n + len(terms), nontriv, [{'op': 'replay', 'impl': descs[0].get('observed', descs[0].get('impl')) if descs else None}], 'replay of one recorded failing input')
+        return
 
     # ---- int() / str() / strip() ----
     ialpha = '0123456789012345_+- \t\n\r\x0b\x0c\x1c\x1fa'
@@ -577,7 +636,7 @@ def run(ctx):
             n_forms_ok += 1
             want = ('ok', h, p if p is not None else (22 if d is None else d))
             if r != want:
-                ctx.violation('parse/%s/wrong-endpoint' % kind, 'parse_host_and_port(%r, %r) = %r, the spelling names %r' % (s, d, r, want[1:]), {'op': 'parse', 's': s, 'default': d})
+                ctx.violation('parse/%s/wrong-endpoint' % kind, 'parse_host_and_port(%r, %r) = %r, the spelling names %r' % (s, d, r, want[1:]), {'op': 'parse', 's': s, 'default': d, 'want': list(want), 'key': 'parse/%s/wrong-endpoint' % kind})
     ctx.evaluations += n_forms_ok
     samples.append({'op': 'parse', 's': '[2001:db8::1]:2222', 'impl': repr(impl_parse('[2001:db8::1]:2222', 22))})
 
@@ -616,7 +675,7 @@ def run(ctx):
         ctx.evaluations += 1
         if r[0] != 'ok' or r[3] != fl:
             ctx.violation('ipversion/%s/order-ignored' % ''.join(map(str, fl)), 'options %r give the family preference %r, the options name %r' % (fl_argv, r[3] if r[0] == 'ok' else r, fl),
-                          {'op': 'flags', 'argv': list(fl_argv) + ['h']})
+                          {'op': 'flags', 'argv': list(fl_argv) + ['h'], 'want': fl, 'key': 'ipversion/%s/order-ignored' % ''.join(map(str, fl))})
 
     # ---- targets file -> target_list (process_commandline) ----
     tmpdir = tempfile.mkdtemp(prefix='c18_')
@@ -660,7 +719,7 @@ def run(ctx):
             ctx.evaluations += 1
             if a and b and b != [0, ''] and a[0] != b:
                 ctx.violation('rate-test/%s/family-order-ignored' % ''.join(map(str, pref)), 'preference %r, resolver answers %r: the audit dials %r, the connection rate test dials %r' % (pref, table[h], a[0], b),
-                              {'op': 'rate_resolve', 'table': table, 'host': h, 'pref': pref})
+                              {'op': 'rate_resolve', 'table': table, 'host': h, 'pref': pref, 'key': 'rate-test/%s/family-order-ignored' % ''.join(map(str, pref))})
 
         # ---- end-to-end runs of the real command line ----
         n_run = 600 if q else 20000
@@ -668,26 +727,9 @@ def run(ctx):
         for i in range(n_run):
             mode = 'peer' if i % 3 == 2 else 'refuse'
             scs.append(gen_file_scenario(rng, mode, allow_odd=(mode == 'refuse')) if i % 2 else gen_cli_scenario(rng, mode))
-        results = run_launcher(scs, tmpdir)
-        n_or = 0
-        for sc, r in zip(scs, results):
-            ob = observe(sc, r)
-            R = cresolver(sc['table'])
-            FL = clist(sc['flags'], cz)
-            OP = copt(sc['oport'], cz)
-            desc = {'op': 'run-%s-%s' % (sc['where'], sc['mode']), 'argv': sc['argv'], 'content': sc.get('content'), 'table': sc['table'],
-                    'observed': {k: ob[k] for k in ('kind', 'gai', 'uconn', 'msgs', 'labels', 'status')}}
-            src = ('run_single %s %s' % (cstr(sc['arg']), OP)) if sc['where'] == 'cli' else ('run_file %s %s' % (cstr(sc['content']), OP))
-            nt = (sc['where'], sc['mode'], tuple(t['kind'] for t in sc['targets'])[:3], sc['oport'] is not None, tuple(sc['flags']), ob['kind'], sc.get('odd'), sc.get('out'))
-            if sc['mode'] == 'refuse':
-                add('chk_run (%s %s %s) %s %s %s %s' % (src, FL, R, cz(ob['kind']), clist(ob['gai'], cgai), clist(ob['conn'], cconn), clist(ob['msgs'], cstr)), desc, nt)
-            else:
-                lab = {'text': 'text_label', 'json': 'json_label', 'policy-text': 'text_label', 'policy-json': 'pj_label'}[sc['out']]
-                tsrc = ('targets_single %s %s' % (cstr(sc['arg']), OP)) if sc['where'] == 'cli' else ('targets_file %s %s' % (cstr(sc['content']), OP))
-                add('chk_peer %s (%s) (pref_of_flags %s) %s %s %s %s' % (lab, tsrc, FL, R, cbool(ob['kind'] == 2), clist(ob['labels'] + ob['msgs'], cstr), clist(ob['uconn'], cconn)), desc, nt)
-            n_or += oracle(ctx, sc, ob)
+        n_or = eval_scenarios(ctx, scs, tmpdir, add)
         ctx.evaluations += n_or
-        samples.append({'op': 'run', 'argv': scs[0]['argv'], 'observed': observe(scs[0], results[0])['gai']})
+        samples.append({'op': 'run', 'argv': scs[0]['argv'], 'impl': descs[-len(scs)]['observed']})
     finally:
         shutil.rmtree(tmpdir, ignore_errors=True)
 
